@@ -26,3 +26,27 @@ PROPS["C03"] = dict(
     trusted_base=COMMON_TB,
     assumptions=COMMON_AS + ["device-level timestamps (inverter/gear/axle/differential) are checked under C08/C13"],
 )
+
+PROPS["C01"] = dict(
+    gen=cases.gen_C01,
+    mask={"time", "cat", "unit", "float"},
+    rule="49x49 ordered unit pairs x {add,sub,mul,div + assign forms, partial_cmp, ==} on Quantity and on bare Unit "
+         "(exhaustive), unary ops on all 49 units, every mixed Quantity/Time/DimensionlessInteger impl on all 49 units, "
+         "random exponents up to |60|, special f32 values (±0, ±inf, NaN, subnormal, extremes) bit-level, all 49 named "
+         "constants, PositionDerivative/Command conversions; values random finite. distinct_nontrivial = distinct case "
+         "lines the model executes",
+    trusted_base=COMMON_TB + ["Gen/Constants.lean is regenerated from src/dimensions/constants.rs by tools/gen.py (regex); "
+                              "the theorems constants_* are re-checked by the kernel against the regenerated table on every run"],
+    assumptions=COMMON_AS,
+)
+
+PROPS["C02"] = dict(
+    gen=cases.gen_C02,
+    mask={"cat", "float"},
+    rule="every assignment of {Err(1),Err(2),None,Some} to the inputs of each combinator: n-ary sum/product/newest-of at "
+         "arity 1..5 exhaustively (x all 3^n timestamp orders for n<=3, sampled for n=4,5; thorough: arity up to 8), "
+         "binary streams 4x4 x {<,=,>}, if/if-else/and/or/not over {E1,E2,N,true,false}, expirer/none-to-value crossed "
+         "with clock category and age {<,=,>} limit; every stream read twice; values random. Timestamps are owned by C03.",
+    trusted_base=COMMON_TB,
+    assumptions=COMMON_AS + ["payload operators are total (f32 / bool); Quantity payload unit panics belong to C01"],
+)
